@@ -420,7 +420,7 @@ def keyword_variants(rng, profile, k):
     return out
 
 
-def build_problem(rng, kw_pool, thorough, profile=(), ws_chars=None, k=0):
+def build_problem(rng, kw_pool, thorough, profile=(), ws_chars=None, index=0):
     """A small problem whose identifiers come from one adversarial pool.  `profile` lists the problem features that
     decide which conditional keyword tables apply (events, processes, durative_actions, trajectory_constraints,
     contingent); some elements are named exactly like conditionally reserved words."""
@@ -528,7 +528,7 @@ def build_problem(rng, kw_pool, thorough, profile=(), ws_chars=None, k=0):
     if ws_chars:
         # white-space family: elements of every kind whose names differ from identifiers only by white space / control
         # characters, next to twins with the same cleaned name
-        b.ws = add_ws_elements(rng, b, ws_specs(rng, k, kw_pool, problem_names(p), ws_chars))
+        b.ws = add_ws_elements(rng, b, ws_specs(rng, index, kw_pool, problem_names(p), ws_chars))
         b.pool = pool + [n for _, n in b.ws if n not in pool]
     return b
 
@@ -606,6 +606,16 @@ def all_items(b):
 # ------------------------------------------------------------------------------------------------ the oracle
 PDDL_ID = re.compile(r"[a-zA-Z][a-zA-Z0-9_-]*")
 ANML_ID = re.compile(r"[a-zA-Z][a-zA-Z0-9_]*")
+
+
+# A wrong answer of a helper on a probe (no element of a problem was given a wrong name by it in that case) is reported,
+# but it is not by itself a failing input of the property: only wrongly chosen names are.
+HELPER = "helper: "
+
+
+def split_bad(bad):
+    prop = [m for m in bad if not m.startswith(HELPER)]
+    return prop + [m for m in bad if m.startswith(HELPER)], bool(prop)
 
 
 def token_form(name, fold_case):
@@ -1013,7 +1023,7 @@ def anml_case(rng, b, T, mode, stats):
         v = bool(aw._is_valid_anml_name(s))
         c["valid_q"].append((s, v))
         if v != (ANML_ID.fullmatch(s) is not None and s not in T["ANML_KEYWORDS"]):
-            extra_bad.append("_is_valid_anml_name(%r) = %r contradicts the definition (letter, then letters/digits/_; "
+            extra_bad.append(HELPER + "_is_valid_anml_name(%r) = %r contradicts the definition (letter, then letters/digits/_; "
                              "reserved words excluded)" % (s, v))
     named = [i for i in mapping.keys() if type(i).__name__ not in ("_BoolType", "_IntType", "_RealType")]
     for it in rng.sample(named, min(3, len(named))):
@@ -1125,19 +1135,22 @@ def run(ctx):
         r = raw[i]
         model = ctx.coq_show("model_answer c", imports=IMPORTS, preamble=kwt.preamble() + "Definition c : case := %s.\n" % cases[i])
         obad, otags = oracle_map.get(i, ([], []))
+        obad, ofails = split_bad(obad)
         ctx.fail("corr", "%s writer (%s): implementation and model disagree on the chosen names (corr:C38:%s)%s" % (
                      r["kind"].upper(), r["mode"], "pddl_run" if r["kind"] == "pddl" else "anml_run_from",
                      "; property C38 fails on the implementation: " + "; ".join(obad[:3]) if obad else ""),
                  ["c38", r["kind"], r["mode"]] + (["shared-names"] if r["shared_names"] else []) + otags,
                  {"case": r, "model": model, "oracle": obad,
-                  "theorem_or_corr": "corr:C38:%s" % r["kind"]}, bool(obad))
+                  "theorem_or_corr": "corr:C38:%s" % r["kind"]}, ofails)
     for i, r, bad, ftags in oracle_bad:
         if i is not None and i in bad_idx:
             continue
+        bad, fails = split_bad(bad)
         ctx.fail("oracle", "%s writer (%s): property C38 fails on the implementation: %s" % (r["kind"].upper(), r["mode"], "; ".join(bad[:3])),
                  ["c38", r["kind"], r["mode"], "oracle"] + (["shared-names"] if r["shared_names"] else [])
-                 + ["feature:" + f for f in r["profile"]] + ftags + ([] if i is not None else ["outside-model-scope"]),
-                 {"case": r, "oracle": bad}, True)
+                 + ["feature:" + f for f in r["profile"]] + ftags + ([] if i is not None else ["outside-model-scope"])
+                 + ([] if fails else ["helper-only"]),
+                 {"case": r, "oracle": bad}, fails)
     if coq_error:
         ctx.fail("corr", "the correspondence cases could not be evaluated: %s" % coq_error[-300:], ["c38", "coq-error"],
                  {"log": coq_error}, False)
